@@ -138,9 +138,14 @@ def const_sign(c):
     return T
 
 
-def pattern_only(tree):
+# every sign combination of (A[i,j], A[j,i]): the input domain of the functions that *decide* acyclicity - an arbitrary weighted
+# graph, two-cycles with cancelling weights included (C03)
+ALL_PAIRS = [(x, y) for x in (Z, P, N, ONE) for y in (Z, P, N, ONE)]
+
+
+def pattern_only(tree, pairs=None):
     """is `tree != 0` decided by the zero pattern on every admissible pair?  -> (bool, witness pair)"""
-    for a, b in PAIRS:
+    for a, b in (pairs or PAIRS):
         if nonzero(ev_tree(tree, a, b)) is None:
             return False, (a, b)
     return True, None
